@@ -138,7 +138,7 @@ type ContractFile struct {
 }
 
 var (
-	reFuncHdr = regexp.MustCompile(`^func\s+(?:\(\s*(\w+)\s+\*?([\w./-]+)\s*\)\s*)?([\w./-]+)\s*(?:\(([^)]*)\))?\s*(?:\(([^)]*)\))?\s*$`)
+	reFuncHdr = regexp.MustCompile(`^func\s+(?:\(\s*(\w+)\s+\*?([\w./-]+)\s*\)\s*)?([\w./:-]+)\s*(?:\(([^)]*)\))?\s*(?:\(([^)]*)\))?\s*$`)
 	reTag     = regexp.MustCompile(`^@(C\d+(?:,C\d+)*)\s+`)
 	reLoop    = regexp.MustCompile(`^loop\s+(\d+)\s*:\s*(.*)$`)
 	reLabel   = regexp.MustCompile(`^label\s+(\w+)\s*:\s*(.*)$`)
